@@ -195,6 +195,50 @@ fresh_repo
 apply_edit $RAW '            self.table.clear_no_drop();\n\n            // Move the now empty table back' '            self.table.growth_left += self.table.items;\n            self.table.items = 0;\n\n            // Move the now empty table back' \
   && run_case drain_drop_inline_reset fail || bad_case drain_drop_inline_reset fail
 
+# ---- (d) the `Bucket<T>` pointer encoding and the `RawIterRange` data pointer ---------------------
+fresh_repo
+{ apply_edit $RAW '            invalid_mut(self.ptr.as_ptr() as usize + offset)\n        } else {\n            self.ptr.as_ptr().sub(offset)\n        };\n        Self {\n            ptr: NonNull::new_unchecked(ptr),\n        }' '            invalid_mut(offset + self.ptr.as_ptr() as usize)\n        } else {\n            self.ptr\n                .as_ptr()\n                .sub(offset) /* towards lower addresses */\n        };\n        Self { ptr: NonNull::new_unchecked(ptr) }' \
+  && apply_edit $RAW '            // this can not be UB\n            self.ptr.as_ptr() as usize - 1\n        } else {\n            offset_from(base.as_ptr(), self.ptr.as_ptr())\n        }' '            self.ptr.as_ptr() as usize - 1 // renamed nothing, comment moved\n        } else {\n            offset_from( base.as_ptr(), self.ptr.as_ptr() )\n        }' \
+  && apply_edit $RAW '            invalid_mut(index + 1)' '            invalid_mut(1 + index)' \
+  && apply_edit $RAW '                return Some(self.data.next_n(index));' '                // a comment\n                return Some(self.data.next_n( index ));' ; } \
+  && run_case bucket_ptr_reformat_and_commute pass || bad_case bucket_ptr_reformat_and_commute pass
+
+fresh_repo
+apply_edit $RAW '            invalid_mut(self.ptr.as_ptr() as usize + offset)\n        } else {\n            self.ptr.as_ptr().sub(offset)\n        };\n        Self {\n            ptr: NonNull::new_unchecked(ptr),\n        }' '            invalid_mut(offset + 1)\n        } else {\n            self.ptr.as_ptr().sub(offset)\n        };\n        Self {\n            ptr: NonNull::new_unchecked(ptr),\n        }' \
+  && run_case next_n_zst_forgets_start fail || bad_case next_n_zst_forgets_start fail
+
+fresh_repo
+apply_edit $RAW '            base.as_ptr().sub(index)' '            base.as_ptr().sub(index + 1)' \
+  && run_case from_base_index_plus_1 fail || bad_case from_base_index_plus_1 fail
+
+fresh_repo
+apply_edit $RAW '            unsafe { self.ptr.as_ptr().sub(1) }' '            unsafe { self.ptr.as_ptr() }' \
+  && run_case as_ptr_no_sub fail || bad_case as_ptr_no_sub fail
+
+fresh_repo
+apply_edit $RAW '            offset_from(base.as_ptr(), self.ptr.as_ptr())' '            offset_from(self.ptr.as_ptr(), base.as_ptr())' \
+  && run_case to_base_index_operands_swapped fail || bad_case to_base_index_operands_swapped fail
+
+fresh_repo
+apply_edit $RAW '        base.sub((index + 1) * size_of)' '        base.sub(index * size_of)' \
+  && run_case bucket_ptr_index_not_plus_1 fail || bad_case bucket_ptr_index_not_plus_1 fail
+
+fresh_repo
+apply_edit $RAW '            self.data = self.data.next_n(Group::WIDTH);\n            self.next_ctrl = self.next_ctrl.add(Group::WIDTH);\n        }\n    }\n\n    /// Fold' '            self.data = self.data.next_n(Group::WIDTH - 1);\n            self.next_ctrl = self.next_ctrl.add(Group::WIDTH);\n        }\n    }\n\n    /// Fold' \
+  && run_case next_impl_data_width_minus_1 fail || bad_case next_impl_data_width_minus_1 fail
+
+fresh_repo
+apply_edit $RAW '                    self.data.next_n(Group::WIDTH).next_n(mid),\n                    len - mid,\n                );\n                debug_assert_eq!(' '                    self.data.next_n(mid),\n                    len - mid,\n                );\n                debug_assert_eq!(' \
+  && run_case split_tail_data_one_group_early fail || bad_case split_tail_data_one_group_early fail
+
+fresh_repo
+apply_edit $RAW '            iter: self.iter.clone(),\n            items: self.items,' '            iter: unsafe { RawIterRange::new(self.iter.next_ctrl, self.iter.data.clone(), 0) },\n            items: self.items,' \
+  && run_case raw_iter_clone_rebuilt fail || bad_case raw_iter_clone_rebuilt fail
+
+fresh_repo
+apply_edit $RAW 'unsafe { NonNull::new_unchecked(self.table.ctrl.as_ptr().sub(ctrl_offset).cast()) },' 'unsafe { NonNull::new_unchecked(self.data_end().as_ptr().sub(self.table.buckets()).cast()) },' \
+  && run_case into_allocation_from_data_end fail || bad_case into_allocation_from_data_end fail
+
 # ---- extra: unsupported syntax must be a hard translation error --------------------------------
 fresh_repo
 apply_edit $RAW 'let cap = min_cap.max(cap);' 'let cap = loop { break min_cap.max(cap); };' \
